@@ -151,6 +151,7 @@ type Exec struct {
 	pcChecked     int
 	local         *localRun
 	spins         int
+	preemptOff    bool
 	streams       []*StreamObj
 	lastRead      *StreamObj
 	initDone      bool
@@ -543,6 +544,7 @@ func (x *Explorer) runPath() (end pathEnd) {
 	e := x.newExec()
 	x.replayLen = len(x.prefix)
 	e.preemptBudget = x.params["P"]
+	e.preemptOff = x.params["Pgate"] == 1
 	e.schedPolicy = x.params["sched"]
 	done := make(chan pathEnd, 1)
 	e.doneCh = done
